@@ -106,6 +106,10 @@ def join(a: Optional[V], b: Optional[V]) -> Optional[V]:
         return ListV(join(a.elem, b.elem), a.obj_owners | b.obj_owners)
     if isinstance(a, TupleV) and isinstance(b, TupleV) and len(a.elts) == len(b.elts):
         return TupleV([join(x, y) for x, y in zip(a.elts, b.elts)])
+    # a slice object on one path, an index array on the other: indexing with the result is basic slicing (a VIEW) on the first path
+    for x, y in ((a, b), (b, a)):
+        if isinstance(x, Opaque) and x.pytype == "slice" and isinstance(y, (Arr, ListV)):
+            return Opaque("slice on one path, index array on another", "slice")
     if isinstance(a, Opaque):
         return b if not isinstance(b, Opaque) else a
     if isinstance(b, Opaque):
@@ -822,6 +826,8 @@ class Frame:
         if isinstance(base, Arr):
             if self._is_fancy(e.slice, idx):
                 return Arr(EMPTY)
+            if isinstance(idx, Opaque) and idx.pytype == "slice":
+                return Arr(base.owners)  # indexed with a slice object held in a variable: a view
             if base.owners and not isinstance(e.slice, (ast.Slice, ast.Tuple)) and not (isinstance(e.slice, ast.Constant) and e.slice.value is Ellipsis) \
                     and isinstance(idx, Opaque):
                 # a column of the node table (1-D) indexed by a scalar: a numpy scalar, which aliases nothing (`v = col[i]; v += 1` re-binds v)
@@ -1056,6 +1062,8 @@ class Frame:
                 return ListV(Opaque("i", "int"), EMPTY)
             if short == "len":
                 return Opaque("len", "int")
+            if short == "slice":
+                return Opaque("slice", "slice")
             if short == "isinstance" and len(args) == 2:
                 return Opaque("bool", "bool")
             if short in ("map", "filter"):
